@@ -478,6 +478,26 @@ func recordConc(rec *recorder, rng *rand.Rand, trials int, repo string) int {
 			fmt.Fprintln(os.Stderr, "record conc:", err)
 			return 2
 		}
+		// first a Run that passes the signature check but fails inside an operator (an element type the first operator refuses):
+		// whatever the error path leaves behind must not disturb the Runs that follow
+		for _, dt := range []tensor.Dtype{tensor.Int32, tensor.Bool, tensor.Float64} {
+			feed := gonnx.Tensors{}
+			for _, in := range sm.inNames {
+				shape := append([]int{}, sm.inShapes[in]...)
+				shape[sm.inBatch[in]] = 2
+				feed[in] = tensor.New(tensor.Of(dt), tensor.WithShape(shape...))
+			}
+			failed := false
+			guard(func() Observation {
+				if _, err := sm.model.Run(feed); err != nil {
+					failed = true
+				}
+				return Observation{Kind: "value"}
+			})
+			if failed {
+				break
+			}
+		}
 		// a pool of inputs with their sequential baseline
 		nKeys := 6
 		pool := make([][]map[string][]float32, nKeys)
